@@ -170,13 +170,17 @@ def _release_in_del(cls: ast.ClassDef, mgr: str) -> tuple[bool, str | None, str]
         return (isinstance(n, ast.Call) and isinstance(n.func, ast.Attribute) and n.func.attr in ('discard', 'remove')
                 and isinstance(n.func.value, ast.Attribute) and n.func.value.attr == mgr)
 
-    def walk(stmts: list[ast.stmt], guard: str | None, depth: int) -> None:
+    def ends(body: list[ast.stmt]) -> bool:
+        return bool(body) and isinstance(body[-1], (ast.Return, ast.Raise))
+
+    def walk(stmts: list[ast.stmt], guard: str | None, depth: int) -> str | None:
+        """Records the releases with the flag that guards them; returns the guard that holds after the statements."""
         g = guard
         for st in stmts:
             if isinstance(st, ast.If):
                 f = flag_of(st.test)
                 neg = isinstance(st.test, ast.UnaryOp) and isinstance(st.test.op, ast.Not) and flag_of(st.test.operand)
-                if neg and st.body and isinstance(st.body[-1], ast.Return) and not st.orelse:
+                if neg and ends(st.body) and not st.orelse:
                     walk(st.body, g, depth)
                     g = g or neg          # `if not flag: return` guards everything that follows
                     continue
@@ -184,11 +188,13 @@ def _release_in_del(cls: ast.ClassDef, mgr: str) -> tuple[bool, str | None, str]
                 walk(st.orelse, g, depth)
                 continue
             if isinstance(st, ast.Try):
-                walk(st.body, g, depth)
+                g_body = walk(st.body, g, depth)
                 for h in st.handlers:
                     walk(h.body, g, depth)
-                walk(st.orelse, g, depth)
+                walk(st.orelse, g_body, depth)
                 walk(st.finalbody, g, depth)
+                if all(ends(h.body) for h in st.handlers) and not st.finalbody:
+                    g = g_body            # what follows the try is reached only through its body
                 continue
             if isinstance(st, (ast.With, ast.For, ast.While)):
                 walk(st.body, g, depth)
@@ -198,6 +204,7 @@ def _release_in_del(cls: ast.ClassDef, mgr: str) -> tuple[bool, str | None, str]
                     found.append((g, n.lineno))
                 if depth == 0 and isinstance(n, ast.Call) and _is_self_attr(n.func) and n.func.attr in methods and n.func.attr != '__del__':
                     walk(methods[n.func.attr].body, g, 1)
+        return g
     walk(d.body, None, 0)
     if not found:
         return False, None, '__del__ does not release the ' + mgr + ' ID'
@@ -354,6 +361,40 @@ def ctor_steps(tree: ast.Module) -> list[dict]:
                          del_releases=releases, del_guarded=flag is not None, flag=flag, destructor=del_desc,
                          generated_init=bool(deco) and '__init__' not in methods))
     return rows
+
+
+def shallow_copy_rows(tree: ast.Module, rows: list[dict]) -> list[tuple[str, str, bool, str]]:
+    """copy.copy(obj): does it go through the class's own copy() (and so through the constructor), or does the default protocol
+    duplicate the fields -- ID and ownership flag included -- into an object that registered nothing?  A class that customises pickling (`__reduce__`, `__reduce_ex__`, `__getnewargs__`..) is not modelled."""
+    classes = {n.name: n for n in tree.body if isinstance(n, ast.ClassDef)}
+    out = []
+    for r in rows:
+        cls = classes[r['cls']]
+        names = {f.name: f for f in cls.body if isinstance(f, ast.FunctionDef)}
+        for bad in ('__reduce__', '__reduce_ex__', '__getnewargs__', '__getnewargs_ex__', '__new__'):
+            if bad in names:
+                raise TranslateError(f'{r["cls"]}.{bad}: customised object creation is not modelled')
+        hook = False
+        desc = 'no __copy__: copy.copy() duplicates the fields'
+        f = names.get('__copy__')
+        if f is not None:
+            body = [st for st in f.body if not (isinstance(st, ast.Expr) and isinstance(st.value, ast.Constant))]
+            if len(body) == 1 and isinstance(body[0], ast.Return) and isinstance(body[0].value, ast.Call) \
+                    and _is_self_attr(body[0].value.func, 'copy'):
+                hook, desc = True, f'__copy__ returns {ast.unparse(body[0].value)}'
+            elif body and isinstance(body[-1], ast.Raise):
+                hook, desc = True, '__copy__ refuses'
+            else:
+                desc = '__copy__ is not `return self.copy(..)`'
+        for st in cls.body:
+            if isinstance(st, ast.Assign) and any(isinstance(t, ast.Name) and t.id == '__copy__' for t in st.targets):
+                if isinstance(st.value, ast.Name) and st.value.id == 'copy':
+                    hook, desc = True, '__copy__ = copy'
+                else:
+                    hook, desc = False, f'__copy__ = {ast.unparse(st.value)}'
+        # without a releasing destructor the shared ID is never handed out again, but the copy is still a second object with the same ID
+        out.append((r['kind'], r['cls'], hook, desc + ('' if r['del_releases'] else ' (no releasing destructor)')))
+    return out
 
 
 def coq_rows(rows: list[dict]) -> list[str]:
